@@ -833,6 +833,7 @@ def data_aliases_inlined(fn):
             drop.append(st)
 
     if not good:
+        set_parents(new)
         return new
 
     class R(ast.NodeTransformer):
